@@ -3,11 +3,14 @@
 The geometry kernels Grid._compute_geometry_1d/_2d/_3d (entered through Grid.compute_geometry) are array programs.
 They are interpreted - statement by statement, from the AST of the CURRENT source, never imported or run - over
 numpy object arrays of sympy terms on a handful of SMALL GRIDS WITH FIXED CONNECTIVITY AND SYMBOLIC NODE
-COORDINATES (a line with three unevenly numbered nodes in a general direction; a convex quadrilateral plus a
-triangle in a general plane of 3-space, once with consistently oriented faces and once with an orientation defect so
-that the convex fall-back runs; a pyramid over a planar quadrilateral plus a tetrahedron).  Square roots become
-"norm symbols" L with L**2 = radicand, so every identity is decided as a polynomial identity (sympy is only the term
-normaliser).  Data-dependent decisions of the code (argmax, sign, comparisons, orientation fall-backs) are taken as
+COORDINATES (a line with four nodes numbered out of order in a general direction and a mixed sign pattern; a convex
+quadrilateral plus a triangle in a general plane z = o + p x + q y of 3-space - once with consistently oriented faces,
+once with two faces listed against the cell loops so that the plane fit and the convex fall-back run, once with an
+additional disconnected clockwise triangle so that orientation check 3/3 fires, in the thorough tier also mirrored;
+a pyramid over a planar quadrilateral plus a tetrahedron).  Terms are kept in a rational normal form over a sparse
+polynomial ring (sympy.polys.rings, used only as term normaliser); square roots become "norm symbols" L with
+L**2 = radicand (square-free decomposition by gcd with the partial derivatives), so every identity is decided as a
+polynomial identity.  Data-dependent decisions of the code (argmax, sign, comparisons, orientation fall-backs) are taken as
 they fall on a few exact rational placements of the nodes inside the family (all must agree, otherwise the
 analysis refuses); a finding is only reported when the symbolic residual is non-zero AND its value at such a
 placement is non-zero, i.e. every finding comes with concrete node coordinates on which the extracted formulas
@@ -17,8 +20,8 @@ R1  closure             for every cell  sum_f sign(f,c) * n_f == 0
 R2  normal = area       |n_f|**2 == area_f**2 for every face; the area is the measure of the face (distance of the two
                         nodes / area of the triangle spanned by the three nodes / 1 for a point)
 R3  outward             (x_f - x_c) . (sign(f,c) * n_f) > 0 for every half-face (decided at the placements)
-R4  divergence          for every cell  sum_f sign * (x_f - p).n_f == dim * V_c  (p a node of the cell), V_c > 0, and the
-                        simplex cells have the simplex measure
+R4  divergence          for every cell  sum_f sign * (x_f - p).n_f == dim * V_c  (p the mean of the cell's nodes: a point of the grid's
+                        line / plane on no face), V_c > 0, and the simplex cells have the simplex measure
 R5  centroid            for every cell  sum_f sign * ((x_f - p).n_f) * (x_f - p) == (dim + 1) * V_c * (x_c - p)
 R6  totality            on these valid grids the kernel neither raises nor gathers/accumulates an array with an index
                         array of another index space (sizes of the node/face/cell/half-face/edge spaces are pairwise
@@ -64,7 +67,7 @@ META = {
     "technique": "abstract interpretation of the array kernels to closed-form terms on small symbolic grids (sympy as term "
                  "normaliser, norm symbols for square roots); identities of the property decided as polynomial identities",
 }
-MIN_INSTANCES = {"R1": 6, "R2": 14, "R3": 14, "R4": 8, "R5": 6, "R6": 4}
+MIN_INSTANCES = {"R1": 12, "R2": 66, "R3": 39, "R4": 32, "R5": 12, "R6": 5}
 
 
 # ======================================================================================================
@@ -318,7 +321,8 @@ class T:
         return self * self.fam.sign(self, "abs")
 
 
-NPOOL = 24
+NPOOL = 40
+WORK_MAX = 3_000_000
 
 
 class Fam:
@@ -342,6 +346,7 @@ class Fam:
         self.zero = T(self, self.ring(0))
         self.one = T(self, self.ring(1))
         self._mono: dict = {}
+        self.work = 0
         self._sqrt_cache: dict = {}
         self._sym = {s: T(self, g) for s, g in zip(self.symbols, gens)}
 
@@ -454,6 +459,9 @@ class Fam:
         return i if i in self.rad else None
 
     def mul(self, p, q, common=None):
+        self.work += len(p) * len(q)
+        if self.work > WORK_MAX:
+            raise Undecided(f"C19 [{self.name}]: term explosion (more than {WORK_MAX} monomial products) - the formulas do not simplify on this instance")
         r = p * q
         if self.rad and (common is None or common):
             r = self.reduce_p(r, common)
@@ -2009,6 +2017,22 @@ class Ev:
 
     np_true_divide = np_divide
 
+    def np_add_at(self, a, idx, vals, node=None):
+        """np.add.at(a, idx, vals): unbuffered in-place accumulation (1-d index into the last axis of a 1-d / first axis otherwise)"""
+        idx = conc(idx)
+        if not isinstance(a, np.ndarray) or not isinstance(idx, np.ndarray) or idx.ndim != 1 or a.dtype != object and not is_conc(vals):
+            raise self.und("np.add.at form", node)
+        v = vals if isinstance(vals, np.ndarray) else np.full(idx.shape, obj(vals), dtype=object)
+        if v.shape[0] != idx.shape[0]:
+            raise ShapeFault(f"`{u(node)[:70]}`: values of size {v.shape} accumulated with an index array of size {idx.shape}", node)
+        v = obj(v) if a.dtype == object else conc(v)
+        try:
+            for k in range(idx.shape[0]):
+                a[idx[k]] = a[idx[k]] + v[k]
+        except IndexError as err:
+            raise ShapeFault(f"`{u(node)[:70]}`: {err}", node)
+        return None
+
     def np_negative(self, a, node=None):
         return self.binop(ast.Mult(), -1, a, node)
 
@@ -2360,12 +2384,23 @@ class Ev:
         return np.logical_not(a) if isinstance(a, np.ndarray) else (not a)
 
     def np_isclose(self, a, b, rtol=None, atol=None, node=None, **kw):
-        rt = sp.Rational(1, 10 ** 5) if rtol is None else obj(rtol)
-        at = sp.Rational(1, 10 ** 8) if atol is None else obj(atol)
-        a, b = obj(a if not isinstance(a, (list, tuple)) else self.np_array(a)), obj(b if not isinstance(b, (list, tuple)) else self.np_array(b))
-        d = self.np_abs(self.binop(ast.Sub(), a, b, node), node=node)
-        bound = self.binop(ast.Add(), at, self.binop(ast.Mult(), rt, self.np_abs(b, node=node), node), node)
-        return self.compare(ast.LtE(), d, bound, node)
+        """decided numerically at the placements (all must agree per entry): |a - b| <= atol + rtol * |b|"""
+        rt = sp.Rational(1, 10 ** 5) if rtol is None else rtol
+        at = sp.Rational(1, 10 ** 8) if atol is None else atol
+        ops = [obj(x if not isinstance(x, (list, tuple)) else self.np_array(x)) for x in (a, b, rt, at)]
+        try:
+            shp = np.broadcast_shapes(*[np.shape(x) for x in ops])
+        except ValueError:
+            raise ShapeFault(f"`{u(node)[:60]}`: isclose on arrays of shapes {np.shape(ops[0])} and {np.shape(ops[1])}", node)
+        A, B, RT, AT = [np.broadcast_to(np.asarray(x, dtype=object), shp) for x in ops]
+        out = np.zeros(shp, dtype=bool)
+        for ix in np.ndindex(*shp):
+            va, vb, vr, vt = (self.fam.nums(x[ix]) for x in (A, B, RT, AT))
+            res = {abs(x - y) <= t + r * abs(y) for x, y, r, t in zip(va, vb, vr, vt)}
+            if len(res) != 1:
+                raise self.und("np.isclose falls differently on the placements", node)
+            out[ix] = res.pop()
+        return out if shp else bool(out[()])
 
     def np_allclose(self, a, b, rtol=None, atol=None, node=None, **kw):
         return self.np_all(self.np_isclose(a, b, rtol=rtol, atol=atol, node=node), node=node)
@@ -2482,6 +2517,11 @@ class Instance:
                      num_cells=nc, history=[], name="instance", tags={}, periodic_face_map=np.zeros((2, 0), dtype=np.int64))
         return GridObj(attrs)
 
+    def single(self) -> "Instance":
+        """the same instance with the first placement only (every data-dependent decision is then taken as it falls there)"""
+        fam = Fam(self.fam.name, self.fam.symbols, self.fam.place[:1])
+        return Instance(self.name, self.dim, fam, self.nodes, self.face_loops, self.cells, self.cell_signs, self.note)
+
     def half_faces(self):
         for c, (fs, ss) in enumerate(zip(self.cells, self.cell_signs)):
             for f, s in zip(fs, ss):
@@ -2503,31 +2543,47 @@ def _placements(symbols, base: list, deltas: list[list]):
     return out
 
 
-def line_instance() -> Instance:
-    """four nodes on a general line of 3-space, numbered out of order; three cells"""
+TAU = sp.symbols("tau0:3", real=True)
+_TAU_BASE = ["3/2", "-7/4", "5/3"]
+_TAU_DELTAS = [["1/6", "1/7", "-1/5"], ["-1/8", "1/9", "1/4"]]
+
+
+def _with_tau(syms, base, deltas, tau: bool):
+    """optionally append the translation symbols (used by C20) to a family"""
+    if not tau:
+        return syms, base, deltas
+    return syms + list(TAU), base + _TAU_BASE, [d + t for d, t in zip(deltas, _TAU_DELTAS)]
+
+
+def line_instance(tau: bool = False, vertical: bool = False) -> Instance:
+    """four nodes on a general line of 3-space (or on a line parallel to the z-axis), numbered out of order; three cells"""
     o = sp.symbols("o0:3", real=True)
     t = sp.symbols("t0:3", real=True)
     r0, d1, d2, d3 = sp.symbols("r0 d1 d2 d3", real=True)
     syms = list(o) + list(t) + [r0, d1, d2, d3]
     # position along the line: node 0 < node 2 < node 3 < node 1
     par = [r0, r0 + d1 + d2 + d3, r0 + d1, r0 + d1 + d2]
-    nodes = _arr([[o[i] + par[k] * t[i] for k in range(4)] for i in range(3)])
+    tt = [0, 0, t[2]] if vertical else list(t)
+    nodes = _arr([[o[i] + par[k] * tt[i] for k in range(4)] for i in range(3)])
     base = ["1/3", "-2/5", "1/2", "2/3", "-1/2", "3/4", "-1/4", "3/5", "1/2", "4/3"]
-    fam = Fam("line", syms, _placements(syms, base, [["1/7", "1/9", "-1/8", "1/10", "1/11", "-1/12", "1/5", "1/13", "-1/6", "1/9"],
-                                                      ["-1/9", "1/5", "1/6", "-1/7", "1/10", "1/9", "-1/3", "-1/11", "1/7", "1/5"]]))
+    deltas = [["1/7", "1/9", "-1/8", "1/10", "1/11", "-1/12", "1/5", "1/13", "-1/6", "1/9"],
+              ["-1/9", "1/5", "1/6", "-1/7", "1/10", "1/9", "-1/3", "-1/11", "1/7", "1/5"]]
+    syms, base, deltas = _with_tau(syms, base, deltas, tau)
+    fam = Fam("line_vertical" if vertical else "line", syms, _placements(syms, base, deltas))
     loops = [[0], [1], [2], [3]]
     cells = [[0, 2], [2, 3], [1, 3]]
     # the face between the 2nd and the 3rd cell has its normal against the line direction (mixed sign pattern: the flip logic must act
     # on some faces and not on others)
     signs = [[-1, 1], [-1, -1], [1, 1]]
-    return Instance("line", 1, fam, nodes, loops, cells, signs, "cells (n0,n2), (n2,n3), (n3,n1) on the line o + s*t")
+    return Instance("line-vertical" if vertical else "line", 1, fam, nodes, loops, cells, signs,
+                    "cells (n0,n2), (n2,n3), (n3,n1) on the line o + s*t" + (" with t parallel to the z-axis" if vertical else ""))
 
 
 def _plane_nodes(ab, o, p, q):
     return _arr([[a for a, b in ab], [b for a, b in ab], [o + p * a + q * b for a, b in ab]])
 
 
-def plane_instance(oriented: bool = True, mirrored: bool = False, patchy: bool = False) -> Instance:
+def plane_instance(oriented: bool = True, mirrored: bool = False, patchy: bool = False, tau: bool = False, vertical: bool = False) -> Instance:
     """a convex quadrilateral and a triangle sharing an edge, in the plane z = o + p x + q y; `patchy` adds a disconnected triangle
     whose node loop runs the other way round (locally consistent, globally not: orientation check 3/3 of the 2-d kernel)"""
     nn = 8 if patchy else 5
@@ -2536,6 +2592,9 @@ def plane_instance(oriented: bool = True, mirrored: bool = False, patchy: bool =
     o, p, q = sp.symbols("o p q", real=True)
     syms = list(a) + list(b) + [o, p, q]
     nodes = _plane_nodes(list(zip(a, b)), o, p, q)
+    if vertical:
+        # the plane x = o (no graph over the xy-plane)
+        nodes = _arr([[o for _ in a], list(a), list(b)])
     basea = ["0", "2", "11/5", "-1/10", "7/2"] + (["5", "6", "11/2"] if patchy else [])
     baseb = ["0", "1/10", "3/2", "6/5", "3/5"] + (["0", "1/5", "1"] if patchy else [])
     if mirrored:
@@ -2546,7 +2605,9 @@ def plane_instance(oriented: bool = True, mirrored: bool = False, patchy: bool =
     da2 = ["-1/25", "1/21", "-1/16", "1/15", "1/12", "-1/13", "1/24", "-1/18"][:nn]
     db2 = ["-1/18", "1/14", "1/20", "-1/13", "-1/17", "1/19", "-1/22", "1/16"][:nn]
     deltas = [da + db + ["1/9", "-1/7", "1/8"], da2 + db2 + ["-1/5", "1/6", "1/9"]]
-    name = "plane" + ("" if oriented else "-unoriented") + ("-mirrored" if mirrored else "") + ("-patchy" if patchy else "")
+    name = "plane" + ("" if oriented else "-unoriented") + ("-mirrored" if mirrored else "") + ("-patchy" if patchy else "") \
+        + ("-vertical" if vertical else "")
+    syms, base, deltas = _with_tau(syms, base, deltas, tau)
     fam = Fam(name.replace("-", "_"), syms, _placements(syms, base, deltas))
     loops = [[0, 1], [1, 2], [2, 3], [3, 0], [1, 4], [4, 2]]
     cells = [[0, 1, 2, 3], [1, 4, 5]]
@@ -2574,15 +2635,17 @@ def _right_hand_sign(pts, loop, cell_nodes) -> int:
     return 1 if float(np.dot(c - cc, nrm)) > 0 else -1
 
 
-def solid_instance() -> Instance:
-    """a pyramid over a (fixed, unsymmetric) planar quadrilateral in z = 0 with a symbolic apex, and a tetrahedron with a symbolic
-    fourth node glued to one of its triangular faces"""
-    x4, y4, z4, x5, y5, z5 = sp.symbols("x4 y4 z4 x5 y5 z5", real=True)
-    syms = [x4, y4, z4, x5, y5, z5]
-    bx, by = [R(0), R(2), R(11, 5), R(-1, 10)], [R(0), R(1, 10), R(3, 2), R(6, 5)]
+def solid_instance(tau: bool = False) -> Instance:
+    """a pyramid over a planar quadrilateral in z = 0 (two of its corners symbolic) with a symbolic apex, and a tetrahedron with a
+    symbolic fourth node glued to one of its triangular faces"""
+    x4, y4, z4, x5, y5, z5, a2, b2, a3, b3 = sp.symbols("x4 y4 z4 x5 y5 z5 a2 b2 a3 b3", real=True)
+    syms = [x4, y4, z4, x5, y5, z5, a2, b2, a3, b3]
+    bx, by = [R(0), R(2), a2, a3], [R(0), R(1, 10), b2, b3]
     nodes = _arr([bx + [x4, x5], by + [y4, y5], [0, 0, 0, 0, z4, z5]])
-    base = ["1", "7/10", "9/5", "17/5", "9/10", "7/10"]
-    deltas = [["1/9", "-1/7", "1/8", "1/11", "1/13", "-1/9"], ["-1/5", "1/6", "1/9", "-1/10", "-1/12", "1/7"]]
+    base = ["1", "7/10", "9/5", "17/5", "9/10", "7/10", "11/5", "3/2", "-1/10", "6/5"]
+    deltas = [["1/9", "-1/7", "1/8", "1/11", "1/13", "-1/9", "1/12", "1/18", "-1/14", "1/16"],
+              ["-1/5", "1/6", "1/9", "-1/10", "-1/12", "1/7", "-1/16", "1/15", "1/12", "-1/18"]]
+    syms, base, deltas = _with_tau(syms, base, deltas, tau)
     fam = Fam("solid", syms, _placements(syms, base, deltas))
     loops = [[0, 1, 2, 3], [0, 1, 4], [1, 2, 4], [2, 3, 4], [3, 0, 4], [1, 5, 2], [2, 5, 4], [4, 5, 1]]
     cells = [[0, 1, 2, 3, 4], [2, 5, 6, 7]]
@@ -2719,7 +2782,8 @@ def check_instance(ctx: Ctx, inst: Instance, out: Outcome, fn_node, prefix: str 
             zero("R2", A[f] * A[f] - m2, f"face {f}: area == measure", f"face {f}: face_areas must be the measure of the face spanned by nodes {loop}")
     for c, (fs, ss) in enumerate(zip(inst.cells, inst.cell_signs)):
         cn = sorted({n for f in fs for n in inst.face_loops[f]})
-        p = _vec(nodes, cn[0])
+        # reference point: the mean of the cell's nodes (a point of the grid's line / plane that lies on no face)
+        p = [sum(nodes[i, n] for n in cn) / len(cn) for i in range(3)]
         # R1 closure
         tot = [0, 0, 0]
         for f, s in zip(fs, ss):
@@ -2773,9 +2837,9 @@ def check_instance(ctx: Ctx, inst: Instance, out: Outcome, fn_node, prefix: str 
 
 
 def instances(tier: str) -> list[Instance]:
-    out = [line_instance(), plane_instance(), plane_instance(oriented=False), solid_instance()]
+    out = [line_instance(), plane_instance(), plane_instance(oriented=False), plane_instance(patchy=True), solid_instance()]
     if tier == "thorough":
-        out += [plane_instance(mirrored=True), plane_instance(patchy=True)]
+        out += [plane_instance(mirrored=True)]
     return out
 
 
@@ -2787,12 +2851,66 @@ def run(ctx: Ctx) -> None:
         if name not in ms:
             raise AnchorError(f"{GRID}:Grid.{name} not found")
     ctx.repo.module(MAPG)
+    undecided = []
     for inst in instances(ctx.tier):
-        out = run_kernel(ctx.repo, inst)
         fn = ms.get(KERNEL[inst.dim].split(".")[1]) or ms["compute_geometry"]
-        check_instance(ctx, inst, out, fn)
+        try:
+            try:
+                out = run_kernel(ctx.repo, inst)
+                check_instance(ctx, inst, out, fn)
+            except Undecided as e:
+                if "differently on the placements" not in str(e):
+                    raise
+                # the placements do not agree on a branch: follow the first placement alone (its decisions are consistent by
+                # construction; identities are still decided symbolically on the path taken there)
+                n0 = len(ctx.obligations)
+                inst = inst.single()
+                del ctx.obligations[n0:]
+                out = run_kernel(ctx.repo, inst)
+                check_instance(ctx, inst, out, fn)
+        except Undecided as e:
+            # an instance the analysis cannot decide never yields a verdict; findings on OTHER instances stand (each carries its own
+            # witness placement), but without any finding the run as a whole is undecided
+            undecided.append(str(e))
+            continue
         ctx.sample({"instance": inst.name, "note": inst.note, "symbols": [str(s) for s in inst.fam.symbols],
                     "square_roots": len(inst.fam.rad), "placements": len(inst.fam.place)})
+    if undecided and not ctx.findings:
+        raise Undecided("; ".join(undecided))
+    for msg in undecided:
+        ctx.note("undecided instance (not a verdict): " + msg)
 
 
-MUTANTS: list = []
+def _m(name, old, new, rule, file=GRID, control=False, count=1):
+    return dict(name=name, file=file, old=old, new=new, rule=rule, control=control, count=count)
+
+
+MUTANTS = [
+    # --- faults that are invisible on simplices and parallelograms (every Cartesian / regular simplex fixture)
+    _m("2d-subcentroid-weights-swapped", "temp_cell_centers[:, cellno] + 2 * self.face_centers[:, faceno]\n        ) / 3",
+       "2 * temp_cell_centers[:, cellno] + self.face_centers[:, faceno]\n        ) / 3", "R5", control=True),
+    _m("3d-subtet-centroid-factor", "tri_centroids = 3 / 4 * dist_cellcenter_subface", "tri_centroids = 2 / 3 * dist_cellcenter_subface", "R5"),
+    _m("3d-face-centre-unweighted", "face_centers = sub_areas * sub_centroids * edge_2_face / face_areas",
+       "face_centers = sub_centroids * edge_2_face / num_nodes_per_face", "R5"),
+    _m("3d-subface-centroid-weights", "            + tmp_face_center.transpose()\n        ) / 3", "            + 2 * tmp_face_center.transpose()\n        ) / 4", "R5"),
+    # --- faults that are invisible on grids in the xy-plane
+    _m("2d-area-from-xy-only", "self.face_areas = np.sqrt(np.square(tangent).sum(axis=0))", "self.face_areas = np.sqrt(np.square(tangent[:2]).sum(axis=0))", "R2"),
+    _m("2d-temp-centre-z-from-y", "cz = np.bincount(cellno, weights=self.face_centers[2, faceno])", "cz = np.bincount(cellno, weights=self.face_centers[1, faceno])", "*"),
+    # --- sign convention / fall-back arms
+    _m("2d-fallback-flip-inverted", "                    * np.sum(subsimplex_heights * self.face_normals[:, faceno], axis=0)\n                ) < 0",
+       "                    * np.sum(subsimplex_heights * self.face_normals[:, faceno], axis=0)\n                ) > 0", "R3"),
+    _m("2d-fallback-flip-ignores-cell-faces-sign", "                    cf_orient\n                    * np.sum(subsimplex_heights", "                    1\n                    * np.sum(subsimplex_heights", "R3"),
+    _m("2d-orientation-check-3-dropped", "                if np.any(cell_volumes < 0):", "                if False:", "*"),
+    _m("2d-normal-rotated-the-other-way", "self.face_normals = np.cross(tangent, plane_normal, axis=0)", "self.face_normals = np.cross(plane_normal, tangent, axis=0)", "R3"),
+    _m("1d-flip-arms-not-mirrored", "np.logical_and(nrm(v) < nrm(vn), sgn < 0)", "np.logical_and(nrm(v) < nrm(vn), sgn > 0)", "R3"),
+    _m("1d-flip-prolongation-sign", "vn = v + nrm(v) * self.face_normals[:, fi[idx]] * 0.001", "vn = v - nrm(v) * self.face_normals[:, fi[idx]] * 0.001", "R3"),
+    # --- index spaces of the half-face triple
+    _m("2d-flip-accumulated-per-cell", "flip = np.bincount(faceno, weights=flip).astype(bool)", "flip = np.bincount(cellno, weights=flip).astype(bool)", "R6"),
+    _m("2d-heights-gather-by-face", "subsimplex_heights = self.face_centers[:, faceno] - temp_cell_centers[:, cellno]",
+       "subsimplex_heights = self.face_centers[:, faceno] - temp_cell_centers[:, faceno]", "R6"),
+    _m("3d-orientation-transposed-lookup", "np.asarray(self.cell_faces[face_numbers, cell_numbers])", "np.asarray(self.cell_faces[edge_numbers, cell_numbers])", "*"),
+    # --- plain formula faults (controls: any test would see them too)
+    _m("2d-subsimplex-area-factor", "subsimplex_normals = 0.5 * np.cross(", "subsimplex_normals = np.cross(", "R4", control=True),
+    _m("3d-subnormal-scale", "            )\n            / 2\n        )", "            )\n            / 3\n        )", "R2"),
+    _m("1d-centre-not-midpoint", "self.cell_centers = 0.5 * (xf1 + xf2)", "self.cell_centers = 0.5 * (xf1 + xf1)", "R5"),
+]
